@@ -14,7 +14,7 @@ pub fn dispatch(line: &str) -> String {
     let r = std::panic::catch_unwind(|| match toks[0] {
         "bs" => bits::run(&toks[1..]),
         "lex" => lexs::run(&toks[1..]),
-        "xs" | "xf" => xs::run(&toks[1..]),
+        "xs" | "xf" | "xp" => xs::run(&toks[1..]),
         "c1" => xs::run_c1(&toks[1..]),
         "pool" => pool::run(&toks[1..]),
         other => format!("UNKNOWN-KIND {}", other),
